@@ -118,6 +118,11 @@ def run_cases(run_case, descs, *, deadline=120, chunk_size=None, nproc=None, pro
                 except (ProcessLookupError, PermissionError):
                     pass
         try:
+            from . import procs
+            procs.kill_leftovers(only_orphans=True)
+        except Exception:
+            pass
+        try:
             import shutil
             shutil.rmtree(sdir, ignore_errors=True)
         except Exception:
@@ -167,6 +172,12 @@ def _loop(run_case, chunks, retry, running, results, nproc, sdir, deadline, n, p
             os.killpg(pid, signal.SIGKILL)  # manager / pool processes the worker left behind
         except (ProcessLookupError, PermissionError):
             pass
+        if os.WIFSIGNALED(status):  # a killed worker may leave children in process groups of their own
+            try:
+                from . import procs
+                procs.kill_leftovers(only_orphans=True)
+            except Exception:
+                pass
         done, begun = _read(path)
         results.update(done)
         missing = [(i, d) for i, d in chunk if i not in done]
